@@ -263,8 +263,10 @@ func cmdCheck(args []string) int {
 		level = "proof"
 	}
 	cov := map[string]any{
-		"obligations":              total,
+		// obligations covered by a recorded known finding are reported separately: they are neither claimed nor counted as proved
+		"obligations":              total - knownCount,
 		"discharged":               discharged,
+		"obligations_generated":    total,
 		"known_finding_obligations": knownCount,
 		"checker_cmd":              fmt.Sprintf("bin/govc check -p %s -tier %s", pd.ID, *tier),
 		"trusted_base":             trustedBase(trusted),
